@@ -80,8 +80,8 @@ CHECKS["C01"] = dict(
          "supplied per-point damages, synthetic histories with a rational stub material) and by membership probes on the "
          "implementation with the shipped materials.",
     note="Trusted: Coq kernel; brentq (compared with the closed form at 1e-6); multiprocess imap order.  The last-cycle "
-         "mode is proved only up to antitonicity of membership in the repetition count (C01_last_boundary_partial); its "
-         "model is tied by correspondence.  Shipped Larson-Miller / fatigue look-ups are covered by C20, not modelled here.",
+         "mode is proved in full for non-negative per-day damages (C01_last_cycle_life: the reported life is the first "
+         "repetition count outside the envelope); its model is tied by correspondence.  Shipped Larson-Miller / fatigue look-ups are covered by C20, not modelled here.",
     technique="Coq proof (order/real-closed-field style algebra over Q, list minima) + correspondence by vm_compute",
     design="4/C01")
 CHECKS["C09"] = dict(
@@ -201,7 +201,8 @@ CHECKS["C05"] = dict(
          "rotation about a coordinate axis (nsatz), hence the characteristic polynomial and the principal values; for any "
          "non-negative element volumes and clamped principal values the PIA log-reliability is <= 0, exp of it lies in (0,1], "
          "is 0 for compressive states, linear in volume, homogeneous of degree m in the stresses and antitone under scaling "
-         "by s >= 1 (real powers, Coquelicot); exp turns multiplier-weighted sums into products of powers (aggregation).  The "
+         "by s >= 1; the same four laws for all eight models at zero service time as consequences of the positive "
+         "homogeneity of their equivalent stresses (proved for the MTS, Shetty, strain-energy and normal-stress forms); exp turns multiplier-weighted sums into products of powers (aggregation).  The "
          "tables are regenerated from damage.py on every run.  Tied to the code by metamorphic runs of determine_reliability "
          "for all eight models on synthetic receivers: rotated axes, range, compressive states, scaling, service time, "
          "doubled volume, zero-service-time homogeneity, uniaxial reduction, tube/panel aggregation.",
